@@ -289,6 +289,14 @@ func genPowerLoss(prop string) func(r *rng, tier string, res *Result) {
 					instants = append(instants, inst{k, o})
 				}
 			} else {
+				if i%8 == 2 {
+					// a torn write that leaves fewer bytes than a record header (1-5), recovery, more
+					// writes, a second unclean shutdown: nothing written after the recovery is lost
+					g.shortFragmentCrash()
+					g.sync()
+					o.syncedNow(g.ref)
+					g.c.tag("after_a_torn_write_shorter_than_a_header")
+				}
 				if i%8 == 6 {
 					// Directed: segment ids are reused after a compaction, so the newest segment can have
 					// a lower file id than an older one. Process crash, recovery, Sync: the Sync must
